@@ -9,7 +9,7 @@ import importlib, difflib
 from ..core import short_exc
 from . import c13, c06
 
-FAMILIES = ["f1_expr", "f2_portrefs", "f3_noconn", "f4_bundles", "f5_arrays", "f6_pairs", "f7_hier", "f8_names"]
+FAMILIES = ["f1_expr", "f2_portrefs", "f3_noconn", "f4_bundles", "f5_arrays", "f6_pairs", "f7_hier", "f8_names", "f9_multifeed"]
 
 
 def roundtrip(pkg):
